@@ -79,41 +79,70 @@ def stub(src, name):
             and st[0][2] == ('tmpl', 'Policy::has_facet', ['policy :: error_handler'])):
         raise mc.Unsupported('%s: no longer `if constexpr (has_facet<error_handler>) {...} abort();`: %s' % (name, mc.show(st)))
     b = [x for x in st[0][3][1] if x != ('using',)]
-    f = {}
-    want_kinds = ['decl error', 'status', 'method_name', 'arity', 'buffer', 'iter', 'fold', 'copy', 'report']
-    if len(b) != 9:
-        raise mc.Unsupported('%s: the guarded block has %d statements, expected %d (%s)' % (name, len(b), len(want_kinds), ', '.join(want_kinds)))
-    if b[0] != ('decl', 'resolution_error', [('error', None)]):
-        raise mc.Unsupported('%s: the record is no longer a local `resolution_error error;` (a shared record would be visible to other calls): %s' % (name, mc.show(b[0])))
+    # const / constexpr locals that name a count are substituted
+    consts = {}
 
-    def field(s, fld):
-        if s[0] == 'expr' and s[1][0] == 'assign' and s[1][1] == '=' and s[1][2] == ('member', ('id', 'error'), fld, False):
-            return s[1][3]
-        raise mc.Unsupported('%s: expected `error.%s = ...;`: %s' % (name, fld, mc.show(s)))
-    stat = field(b[1], 'status')
+    def sub(e):
+        if isinstance(e, tuple):
+            if len(e) == 2 and e[0] == 'id' and e[1] in consts:
+                return consts[e[1]]
+            return tuple(sub(x) for x in e)
+        if isinstance(e, list):
+            return [sub(x) for x in e]
+        return e
+    # statement by statement, in any order that respects the data flow
+    facts = {}
+    order = []
+    itv = None
+    for x in b:
+        x = sub(x)
+        if x == ('decl', 'resolution_error', [('error', None)]):
+            kind = 'decl error'
+        elif x[0] == 'expr' and x[1][0] == 'assign' and x[1][1] == '=' and x[1][2][0] == 'member' and x[1][2][1] == ('id', 'error') and x[1][2][2] in ('status', 'method_name', 'arity'):
+            kind = x[1][2][2]
+            facts[kind] = x[1][3]
+        elif x[0] == 'decl' and x[1] == 'type_id' and len(x[2]) == 1 and x[2][0][0] == 'types' and x[2][0][1] and x[2][0][1][0] == 'array':
+            kind = 'buffer'
+            facts['buffer'] = x[2][0][1][1]
+        elif x[0] == 'decl' and len(x[2]) == 1 and x[2][0][1] == ('id', 'types') and re.sub(r'\s', '', x[1]) in ('auto', 'type_id*'):
+            kind = 'iter'
+            itv = x[2][0][0]
+        elif itv and x == ('expr', ('fold', ',', ('call', ('tmpl', 'detail::get_tip', ['Policy', 'A']), [('id', 'args'), ('id', itv)]))):
+            kind = 'fold'
+        elif (x[0] == 'expr' and x[1][0] == 'call' and x[1][1] == ('id', 'std::copy_n') and len(x[1][2]) == 3 and x[1][2][0] == ('id', 'types')
+              and x[1][2][2] == ('un', '&', ('index', ('member', ('id', 'error'), 'types', False), ('num', 0)))):
+            kind = 'copy'
+            facts['copied'] = x[1][2][1]
+        elif x == ('expr', ('call', ('id', 'Policy::error'), [('call', ('id', 'error_type'), [('call', ('id', 'std::move'), [('id', 'error')])])])):
+            kind = 'report'
+        elif (x[0] == 'decl' and len(x[2]) == 1 and x[2][0][1] is not None and x[1].split()[0] in ('const', 'constexpr') and x[2][0][1][0] != 'lambda'):
+            consts[x[2][0][0]] = x[2][0][1]
+            continue
+        else:
+            if x[0] == 'decl' and 'resolution_error' in x[1]:
+                raise mc.Unsupported('%s: the record is no longer a local `resolution_error error;` (a shared record would be visible to other calls): %s' % (name, mc.show(x)))
+            raise mc.Unsupported('%s: statement of the guarded block not in the subset: %s' % (name, mc.show(x)))
+        if kind in order:
+            raise mc.Unsupported('%s: `%s` done twice' % (name, kind))
+        order.append(kind)
+    need = ['decl error', 'status', 'method_name', 'arity', 'buffer', 'iter', 'fold', 'copy', 'report']
+    if sorted(order) != sorted(need):
+        raise mc.Unsupported('%s: the guarded block no longer does exactly: %s (found: %s)' % (name, ', '.join(need), ', '.join(order)))
+    pos = {k: i for i, k in enumerate(order)}
+    for before, after in (('decl error', 'status'), ('decl error', 'method_name'), ('decl error', 'arity'), ('decl error', 'copy'), ('buffer', 'iter'), ('iter', 'fold'),
+                          ('fold', 'copy'), ('copy', 'report'), ('status', 'report'), ('method_name', 'report'), ('arity', 'report')):
+        if pos[before] > pos[after]:
+            raise mc.Unsupported('%s: `%s` now comes after `%s`' % (name, before, after))
+    stat = facts['status']
     if stat not in (('id', 'resolution_error::no_definition'), ('id', 'resolution_error::ambiguous')):
         raise mc.Unsupported('%s: status is not one of the two resolution_error codes: %s' % (name, mc.show(stat)))
-    if field(b[2], 'method_name') != ('member', ('id', 'fn'), 'name', False):
+    if facts['method_name'] != ('member', ('id', 'fn'), 'name', False):
         raise mc.Unsupported('%s: method_name is no longer fn.name' % name)
-    arity = cnt(field(b[3], 'arity'), name)
-    if not (b[4][0] == 'decl' and b[4][1] == 'type_id' and len(b[4][2]) == 1 and b[4][2][0][0] == 'types' and b[4][2][0][1] and b[4][2][0][1][0] == 'array'):
-        raise mc.Unsupported('%s: the ids are no longer collected in a local array `type_id types[...]`: %s' % (name, mc.show(b[4])))
-    size = b[4][2][0][1][1]
-    buf = {'sizeof...(args)': 'CNumArgs', 'arity': 'CArity', 'resolution_error::max_types': 'CMaxTypes'}.get(size)
+    arity = cnt(facts['arity'], name)
+    buf = {'sizeof...(args)': 'CNumArgs', 'arity': 'CArity', 'resolution_error::max_types': 'CMaxTypes'}.get(facts['buffer'])
     if buf is None:
-        raise mc.Unsupported('%s: size of the local array not understood: %s' % (name, size))
-    if b[5] != ('decl', 'auto', [('ti_iter', ('id', 'types'))]):
-        raise mc.Unsupported('%s: `auto ti_iter = types;` expected: %s' % (name, mc.show(b[5])))
-    want_fold = ('expr', ('fold', ',', ('call', ('tmpl', 'detail::get_tip', ['Policy', 'A']), [('id', 'args'), ('id', 'ti_iter')])))
-    if b[6] != want_fold:
-        raise mc.Unsupported('%s: the fold of detail::get_tip<Policy, A>(args, ti_iter) over the arguments changed: %s' % (name, mc.show(b[6])))
-    c = b[7]
-    if not (c[0] == 'expr' and c[1][0] == 'call' and c[1][1] == ('id', 'std::copy_n') and len(c[1][2]) == 3 and c[1][2][0] == ('id', 'types')
-            and c[1][2][2] == ('un', '&', ('index', ('member', ('id', 'error'), 'types', False), ('num', 0)))):
-        raise mc.Unsupported('%s: the ids are no longer copied with std::copy_n(types, k, &error.types[0]): %s' % (name, mc.show(c)))
-    copied = cnt(c[1][2][1], name)
-    if b[8] != ('expr', ('call', ('id', 'Policy::error'), [('call', ('id', 'error_type'), [('call', ('id', 'std::move'), [('id', 'error')])])])):
-        raise mc.Unsupported('%s: the record is no longer handed to Policy::error(error_type(std::move(error))): %s' % (name, mc.show(b[8])))
+        raise mc.Unsupported('%s: size of the local array not understood: %s' % (name, facts['buffer']))
+    copied = cnt(facts['copied'], name)
     return '{| sb_status := %s; sb_arity := %s; sb_buffer := %s; sb_copied := %s |}' % (
         'SNoDefinition' if stat[1].endswith('no_definition') else 'SAmbiguous', arity, buf, copied)
 
@@ -128,7 +157,37 @@ def tip(dsrc):
     def s(st):
         k = st[0]
         if k == 'block':
-            out = [s(x) for x in st[1] if x != ('using',)]
+            sts = [x for x in st[1] if x != ('using',)]
+            # const T v = e;  *ti_iter = v;  ++ti_iter;      is      *ti_iter++ = e;
+            env = {}
+            norm_sts = []
+            for x in sts:
+                if x[0] == 'decl' and len(x[2]) == 1 and x[2][0][1] is not None and x[1].split()[0] == 'const':
+                    env[x[2][0][0]] = x[2][0][1]
+                    continue
+                norm_sts.append(x)
+
+            def sub(e):
+                if isinstance(e, tuple):
+                    if len(e) == 2 and e[0] == 'id' and e[1] in env:
+                        return env[e[1]]
+                    return tuple(sub(y) for y in e)
+                if isinstance(e, list):
+                    return [sub(y) for y in e]
+                return e
+            norm_sts = [sub(x) for x in norm_sts]
+            merged = []
+            i = 0
+            while i < len(norm_sts):
+                x = norm_sts[i]
+                if (x[0] == 'expr' and x[1][0] == 'assign' and x[1][1] == '=' and x[1][2] == ('un', '*', ('id', 'ti_iter')) and i + 1 < len(norm_sts)
+                        and norm_sts[i + 1] in (('expr', ('un', '++', ('id', 'ti_iter'))), ('expr', ('post', '++', ('id', 'ti_iter'))))):
+                    merged.append(('expr', ('assign', '=', push, x[1][3])))
+                    i += 2
+                    continue
+                merged.append(x)
+                i += 1
+            out = [s(x) for x in merged]
             out = [x for x in out if x != 'TSkip']
             if not out:
                 return 'TSkip'
